@@ -25,6 +25,7 @@ func init() {
 		// replaced name is listed next to the new one
 		ruleS2(c, "C13.P10")
 		ruleP11(c, "C13.P11")
+		ruleP12(c, "C13.P12")
 		ruleKind(c, "C13.P7")
 		ruleP8(c, "C13.P8")
 	}
@@ -377,10 +378,12 @@ func ruleP4(c *Ctx, id string) {
 				R.Undecided(id, spec+"|bound test", P.Pos(s.Pos()), "the scan loop tests offset < directory size", "no such test found")
 				continue
 			}
+			scanPolarity(c, id, spec, m.loop.Fn, m.bound)
 			ok, why, n := m.trueOnlyAtEnd()
 			R.Check(ok && n > 0, id, spec+"|eof only at the end", P.Pos(s.Pos()), "the result is true only on paths that left the slot loop through its bound test", fmt.Sprintf("%d returning paths explored", n), why+": a page that ends before the last entry reports end-of-directory, the remaining entries are never returned")
 			continue
 		}
+		scanPolarity(c, id, spec, s, bound)
 		ok, why, n := trueOnlyViaBound(s, bound)
 		R.Check(ok && n > 0, id, spec+"|eof only at the end", P.Pos(s.Pos()), "the result is true only through the loop's bound test and the constant false at every limit exit", fmt.Sprintf("%d constant sources, true only via the bound test", n), why+": a page that ends before the last entry reports end-of-directory, the remaining entries are never returned")
 	}
@@ -693,6 +696,48 @@ func ruleP11(c *Ctx, id string) {
 		entry := cb.Blocks[0].Instrs[0]
 		always := isLink(entry) || MustAfter(cb, isLink, nil)(entry)
 		R.Check(always, id, pr.lister+"|callback links every entry", P.Pos(cb.Pos()), "every path of the callback stores the new entry into the list (head variable or the previous entry's Nextentry)", "must-follow from the callback's entry", "a path of the callback returns without linking the entry it was handed: the scanner cannot be told to stop, goes on to the end and reports end-of-directory - the dropped entries are never returned")
+		// (a') the previous entry is written only where there is one: a store into the Nextentry of the entry a
+		// captured variable points to lies on the "not nil" side of a test of that variable
+		for _, g := range append([]*ssa.Function{cb}, cb.AnonFuncs...) {
+			for _, b := range g.Blocks {
+				for _, in := range b.Instrs {
+					st, ok := in.(*ssa.Store)
+					if !ok {
+						continue
+					}
+					fa, isFA := st.Addr.(*ssa.FieldAddr)
+					if !isFA {
+						continue
+					}
+					if n, f, _ := FieldOf(fa); n == nil || f != "Nextentry" {
+						continue
+					}
+					ld, isL := stripConv(fa.X).(*ssa.UnOp)
+					if !isL || ld.Op != token.MUL {
+						continue
+					}
+					cell, isFV := ld.X.(*ssa.FreeVar)
+					if !isFV {
+						continue
+					}
+					g2 := guardedBy(g, b, func(cd Cond) (bool, bool) {
+						if cd.Op != token.EQL && cd.Op != token.NEQ {
+							return false, false
+						}
+						for _, pr2 := range [][2]ssa.Value{{cd.X, cd.Y}, {cd.Y, cd.X}} {
+							if pr2[0] == nil || pr2[1] == nil || !isNilConst(pr2[1]) {
+								continue
+							}
+							if l2, ok := stripConv(pr2[0]).(*ssa.UnOp); ok && l2.Op == token.MUL && l2.X == ssa.Value(cell) {
+								return true, cd.Op == token.NEQ
+							}
+						}
+						return false, false
+					})
+					R.Check(g2, id, pr.lister+"|previous entry written only where there is one", P.Pos(st.Pos()), "the store into the previous entry's Nextentry lies on the side where the 'last entry' variable is not nil", "dominated by the != nil side", "the first entry of a page is linked behind a previous entry that does not exist: nil pointer dereference in the callback, with the directory locked - every listing crashes the server")
+				}
+			}
+		}
 		// (b) the result: Entries from the list head, Eof from the scanner's answer
 		okEof, okEnt := false, false
 		for _, b := range ls.Blocks {
@@ -736,6 +781,103 @@ func ruleP11(c *Ctx, id string) {
 				okAll := MustAfter(hsc.Fn, isPut, nil)(lc)
 				R.Check(okAll, id, pr.handler[strings.LastIndex(pr.handler, ".")+1:]+"|listing stored in the reply on every path", P.Pos(lc.Pos()), "every path on from the lister's call stores its result in Resok.Reply", "must-follow", "a path commits and answers NFS3_OK without the listing (for instance when the page has no entry): the end-of-directory flag is lost, the client asks again with the same cookie for ever")
 			}
+		}
+	}
+}
+
+// scanPolarity: the slot loop goes on while offset < size: what reads the slot
+// (Inode.Read, or the body handed to an iterator) lies on that side of the
+// bound test.  A test the wrong way round lists nothing and reports the end.
+func scanPolarity(c *Ctx, id, spec string, loopFn *ssa.Function, bound *Branch) {
+	V, P, R := c.V, c.P, c.R
+	op := bound.Cond.Op
+	// normalised to "offset op size" by the finders: LSS continues on True, GEQ on False
+	if n, fl, _, _ := loadedField(bound.Cond.X); n == V.Inode && fl == "Size" {
+		op = flipOp(op)
+	}
+	cont := bound.True
+	if op == token.GEQ {
+		cont = bound.False
+	}
+	nr := 0
+	okAll := true
+	for _, b := range loopFn.Blocks {
+		for _, in := range b.Instrs {
+			if _, isC := in.(*ssa.Call); !isC {
+				continue
+			}
+			g := staticCallee(in)
+			isRead := g != nil && g == V.InodeRead
+			if !isRead {
+				continue
+			}
+			if !reachableFrom(in, bound.Block.Instrs[len(bound.Block.Instrs)-1]) {
+				continue // not in the loop
+			}
+			nr++
+			if !(cont == b || cont.Dominates(b)) {
+				okAll = false
+			}
+		}
+	}
+	if nr == 0 {
+		return // the slot is read elsewhere (form B): trueOnlyAtEnd explores the paths
+	}
+	R.Check(okAll, id, spec+"|the loop runs while offset < size", P.Pos(bound.Block.Instrs[len(bound.Block.Instrs)-1].Pos()), "the read of the slot lies on the side of the bound test where the offset is below the directory size", "offset "+op.String()+" size", "the bound test is the wrong way round: the scan reads nothing (or reads past the end) and reports the end of the directory - a listing loses every entry")
+}
+
+// ruleP12: a listing names the live entries and nothing else: the scanners
+// call the function they were handed only for slots in use - on the "not 0"
+// side of a test of the decoded entry's inode number (a free slot decodes as
+// number 0 with an empty name).
+func ruleP12(c *Ctx, id string) {
+	P, R := c.P, c.R
+	R.Rule(id, "only live entries are listed: in dir.Apply and dir.ApplyEnts the callback is called on the 'not 0' side of a test of the decoded entry's inode number", 2)
+	for _, spec := range []string{"dir.Apply", "dir.ApplyEnts"} {
+		s := c.fn(id, spec)
+		if s == nil {
+			continue
+		}
+		fparam := funcParam(s)
+		if fparam == nil {
+			R.Undecided(id, spec+"|callback", P.Pos(s.Pos()), "the scanner has a function parameter", "none found")
+			continue
+		}
+		scopes := scopesOf(s)
+		n := 0
+		for _, sc := range scopes {
+			for _, b := range sc.Fn.Blocks {
+				for _, in := range b.Instrs {
+					cc := callCommon(in)
+					if cc == nil || cc.IsInvoke() || sc.S.resolve(stripConv(cc.Value)) != ssa.Value(fparam) {
+						continue
+					}
+					n++
+					R.Analysed[FuncName(s)] = true
+					g := guardedUp(scopes, sc, b, func(sub Subst) func(Cond) (bool, bool) {
+						return func(cd Cond) (bool, bool) {
+							if cd.Op != token.EQL && cd.Op != token.NEQ {
+								return false, false
+							}
+							for _, pr := range [][2]ssa.Value{{cd.X, cd.Y}, {cd.Y, cd.X}} {
+								if pr[0] == nil || pr[1] == nil {
+									continue
+								}
+								k, isk := constIntDeep(pr[1])
+								_, fl, _, _ := loadedFieldS(pr[0], sub)
+								if isk && k == 0 && fl == "inum" {
+									return true, cd.Op == token.NEQ
+								}
+							}
+							return false, false
+						}
+					})
+					R.Check(g, id, fmt.Sprintf("%s|callback#%d only for slots in use", spec, n), P.Pos(in.Pos()), "the callback runs only where the entry's number is not 0", "dominated by the != 0 side", "free slots are handed to the callback (and, with the test the wrong way round, live entries are skipped): a listing shows empty names with file id 0 and loses files that exist")
+				}
+			}
+		}
+		if n == 0 {
+			R.Undecided(id, spec+"|callback", P.Pos(s.Pos()), "the scanner calls the function it was handed", "no such call found")
 		}
 	}
 }
